@@ -35,9 +35,31 @@ def group_class(r):
     return r[:18]
 
 
+def gpp_nontrivial(tok, res):
+    if tok[0] in ("join", "take"):
+        return res.startswith("ok:") or res.startswith("err:")
+    if tok[0] == "conn":
+        return res.startswith("to:") or res in ("squat", "stuck", "closed")
+    if tok[0] == "view":
+        return "used=;" not in res
+    if tok[0] == "close":
+        return res == "-"
+    return tok[0] == "squat" and res == "ok"
+
+
+def gpp_class(r):
+    if r.startswith("free="):
+        return "view"
+    if r.startswith("ok:"):
+        return "ok"
+    if r.startswith("to:"):
+        return "to"
+    return ":".join(r.split(":")[:2])
+
+
 PROP = {
         "level": "proof",
-        "gens": ["GroupFacts"],
+        "gens": ["GroupFacts", "PortFacts"],
         "theorems": [
             "Frp.C13.cmp_none_iff", "Frp.C13.join_ok_iff", "Frp.C13.join_refused_unchanged",
             "Frp.C13.join_ok_effect",
@@ -67,10 +89,36 @@ PROP = {
             "Frp.C13.code_release_real_port", "Frp.C13.code_gates",
             "Frp.C13.step_leaked", "Frp.C13.repaired_no_leak", "Frp.C13.repaired_used_iff_populated",
             "Frp.C13.usedHolds_sound",
+            # tcp groups composed with the real port manager tables (Frp/Model/GroupPorts.lean)
+            "Frp.C13Ports.inv_run",
+            "Frp.C13Ports.used_names_the_holder",
+            "Frp.C13Ports.one_listener_per_port",
+            "Frp.C13Ports.listener_not_foreign",
+            "Frp.C13Ports.listener_has_members",
+            "Frp.C13Ports.openLn_cases",
+            "Frp.C13Ports.openLn_no_overwrite",
+            "Frp.C13Ports.join_no_overwrite",
+            "Frp.C13Ports.take_no_overwrite",
+            "Frp.C13Ports.join_keeps_owners",
+            "Frp.C13Ports.close_touches_own_port_only",
+            "Frp.C13Ports.last_leave_frees",
+            "Frp.C13Ports.create_granted_free",
+            "Frp.C13Ports.create_port0_good_choice",
+            "Frp.C13Ports.create_port0_iff",
+            "Frp.C13Ports.create_fixed_iff",
+            "Frp.C13Ports.recreate_port0",
+            "Frp.C13Ports.recreate_fixed",
+            "Frp.C13Ports.recreate_after_last_leave",
+            "Frp.C13Ports.acquireR_probed",
+            "Frp.C13Ports.unprobed_reservation_witness",
+            "Frp.C13Ports.code_take_probed", "Frp.C13Ports.code_take_paths",
         ],
+        "extra_targets": ["Frp.Props.C13Ports"],
         "engines": [
             {"name": "group", "quick_n": 6000, "thorough_n": 20000, "thorough_seeds": 5,
              "nontrivial": group_nontrivial, "result_class": group_class},
+            {"name": "grpports", "quick_n": 4000, "thorough_n": 16000, "thorough_seeds": 5,
+             "nontrivial": gpp_nontrivial, "result_class": gpp_class},
         ],
         "rule": "group engine: generated join/leave/connection/squat histories on the real TCPGroupCtl "
                 "(real ports.Manager + sockets), HTTPGroupController (real vhost.Routers) and TCPMuxGroupCtl "
@@ -89,12 +137,31 @@ PROP = {
                 "to its end (delivered to whom / closed by frps / still open 2 s after it had to be taken or "
                 "closed); non-trivial = a join decided (accepted/refused with a class), a connection "
                 "delivered/stuck/unauthorised/kept, a kept connection resolved, or a schedule; "
-                "distinct = distinct (op line, result) pairs",
+                "distinct = distinct (op line, result) pairs.  "
+                "grpports engine: the real TCPGroupCtl over the real ports.Manager (allowed sets of 1-8 loopback ports, "
+                "real sockets) together with the other owners a port manager has — further groups, plain tcp proxies "
+                "(the Acquire / net.Listen / Release sequence of TCPProxy.Run / Close), foreign processes — with proxy "
+                "names REUSED (the manager's reserved-port path is part of every history): joins with remotePort 0, "
+                "a number, or `@name` = the real port last granted to that name (somebody takes a released port by "
+                "number), right / wrong key and port, leaves, grabs between Acquire and Listen, squats, user "
+                "connections, dumps of the manager; episodes: a group is founded (0 or fixed), joined, dissolved "
+                "member by member, another owner takes its old port (by number / by the server's choice / a foreign "
+                "bind) or nobody does, the group is created again by its former founder, another former member or a "
+                "new name.  Judged on the implementation's own results: a granted port is allowed, the requested one, "
+                "held by nobody and accounted to nobody (no overwrite); a refused creation is legitimate only when no "
+                "free port is available (server-chosen: `no available port` with >= min(5,|free|) free ports held) ; "
+                "every dump: used[p] names the owner of the listener frps holds on p, accounted = bound, free/used "
+                "partition the allowed set; a connection is answered by a member of the listener on that port",
         "trusted": COMMON_TRUST + [
             "model Frp/Model/Group.lean written by hand from server/group/{tcp,http,tcpmux}.go; tied by the group engine",
             "verifhook gates tcpgroup/httpgroup/tcpmuxgroup *.lookedup (hooks/C13.patch) perturb timing only",
             "the harness reaches ctl.groups[g].mu by reflection and holds it (op `hold`): perturbs timing only; "
             "'blocked on a mutex' is read from runtime.Stack goroutine states",
+            "model Frp/Model/GroupPorts.lean written by hand (TCPGroupCtl.Listen / TCPGroup.Listen / CloseListener big-step "
+            "over Frp/Model/Ports.lean's PM = ports.Manager's three tables; TCPProxy.Run / Close for the plain owners; the OS "
+            "socket table); tied by the grpports engine, whose plain-proxy ops repeat TCPProxy.Run's Acquire / Listen / "
+            "Release sequence in the harness, and by Frp/Gen/PortFacts.lean (translate/gen_portfacts.go, go/ast: every "
+            "write to usedPorts in Manager.Acquire with its enclosing conditions)",
             "translate/gen_groupfacts.go (go/ast): statement-order walk of the six join/leave entry functions with "
             "package-local calls inlined; branches that return do not flow out, intersection after other branches",
         ],
@@ -108,14 +175,17 @@ PROP = {
             "tcpmux: one kept connection at a time — further ones wait inside vhost.Muxer.handle, not in the group; Muxer.handle's recovered send on a closed listener leaves such a connection open (DESIGN §7/10, open on this tree, C11's), which is not driven here",
             "a connection arriving while a member's leave is under way (listener closed, still listed) is not driven",
             "the split leave of the witness model keeps the identity test `ctl.groups[name] == g` (the careful form)",
+            "group + port manager composition (GroupPorts): joins and leaves are big steps (one critical section each, "
+            "code_join_one_section / code_leave_one_section); Acquire|Listen windows of two frp owners overlap only through "
+            "the grab (a foreign bind); the 24 h expiry of reservations is not modelled; the bind address is fixed",
             "'stuck' for a kept connection is decided by time: the harness's own books say it must be delivered or closed and it is still open after 2 s",
         ],
     }
 
 META = {
-        "engine": "lean+harness(group)",
+        "engine": "lean+harness(group, grpports)",
         "design_ref": "DESIGN.md §6 C13, Appendix A.3",
-        "technique": "Lean 4 small-step model of the three two-lock group controllers; invariants over all interleavings for the repaired model, witness schedules for the pinned one; differential correspondence with the real controllers incl. gated schedules in a sacrificial child process",
-        "text": "Proof (model level) + correspondence. For every state, a join meeting a populated group is accepted iff it presents the group's name, key and all compared endpoint parameters (http: and is not yet a member); a refused join changes nothing; http requests rotate index mod n and reach every member within n requests. For the repaired controllers (lookup+join and leave under the controller lock, listen on the acquired port, close on failed hand-off) invariants hold under ALL interleavings: no double close (no panic), endpoint open iff members, every populated group is the one stored under its name, reported port = listening port, no leaked port, no connection left in limbo, immediate re-creation after the last leave. The leave's two sections (group edit | table delete) are labels of their own in every one of these statements: the source keeps the controller lock across both (facts regenerated from server/group/*.go by the translator: join = one critical section, leave = one critical section, lock order controller -> group, edits under the group lock, the tcp group releases realPort), so between the sections nothing of another join or leave is enabled, table <-> members stay consistent (a populated object is the table's entry for its name; a table entry is usable unless its last leaver holds the controller lock and is about to delete it), and the big-step leave equals its sections run back to back; a kernel-checked witness shows that the same controllers with a leave that gives the lock up between its sections (even with an identity test) lose a live http group (later correct joins refused, route never removed) and crash frps for tcp/tcpmux. A port is accounted as used exactly as long as a populated group listens on it (no leak under any interleaving). User connections, with arrival decoupled from pick-up: because the hand-off channel is unbuffered, under ALL interleavings every connection that reached a group's listener is in exactly one place — waiting with the worker, received by exactly one member, or closed by frps; none is ever stranded (open in nobody's hands, or buffered in the channel of a group without members); while a member is live the worker keeps a waiting connection; those still waiting when the last member has left are closed. A kernel-checked witness shows that the same controllers with any channel capacity > 0 strand the connections buffered at the last leave while everything else (delivery, re-creation) still works. For the pinned tree the same statements are refuted by kernel-checked witness schedules which the harness reproduces on the real code (frps dies).",
+        "technique": "Lean 4 small-step model of the three two-lock group controllers; big-step composition of the tcp group controller with the port manager's tables (inductive invariant over all histories); invariants over all interleavings for the repaired model, witness schedules for the pinned one; differential correspondence with the real controllers incl. gated schedules in a sacrificial child process",
+        "text": "Proof (model level) + correspondence. For every state, a join meeting a populated group is accepted iff it presents the group's name, key and all compared endpoint parameters (http: and is not yet a member); a refused join changes nothing; http requests rotate index mod n and reach every member within n requests. For the repaired controllers (lookup+join and leave under the controller lock, listen on the acquired port, close on failed hand-off) invariants hold under ALL interleavings: no double close (no panic), endpoint open iff members, every populated group is the one stored under its name, reported port = listening port, no leaked port, no connection left in limbo, immediate re-creation after the last leave. The leave's two sections (group edit | table delete) are labels of their own in every one of these statements: the source keeps the controller lock across both (facts regenerated from server/group/*.go by the translator: join = one critical section, leave = one critical section, lock order controller -> group, edits under the group lock, the tcp group releases realPort), so between the sections nothing of another join or leave is enabled, table <-> members stay consistent (a populated object is the table's entry for its name; a table entry is usable unless its last leaver holds the controller lock and is about to delete it), and the big-step leave equals its sections run back to back; a kernel-checked witness shows that the same controllers with a leave that gives the lock up between its sections (even with an identity test) lose a live http group (later correct joins refused, route never removed) and crash frps for tcp/tcpmux. A port is accounted as used exactly as long as a populated group listens on it (no leak under any interleaving). With the port manager's real tables in the state (free / used / reserved; tcp groups, plain proxies and foreign processes as owners; every history, every random choice, failed listens): usedPorts[p] always names the one owner that holds the listener on p and an acquisition never overwrites an owner's entry (one owner's bookkeeping does not damage another's port); a leave releases the leaver's own port only, the last leave frees it at once and it can be acquired again by number immediately; a group without members can be created with a server-chosen port iff some allowed port is free and with a fixed port iff that port is free — whoever took its old port meanwhile; a kernel-checked witness shows that a reserved-port path without the bind probe hands a re-created group a port another owner holds, frees that owner's port while it listens and refuses every retry; the probe in front of every write to usedPorts is read from the source (PortFacts). User connections, with arrival decoupled from pick-up: because the hand-off channel is unbuffered, under ALL interleavings every connection that reached a group's listener is in exactly one place — waiting with the worker, received by exactly one member, or closed by frps; none is ever stranded (open in nobody's hands, or buffered in the channel of a group without members); while a member is live the worker keeps a waiting connection; those still waiting when the last member has left are closed. A kernel-checked witness shows that the same controllers with any channel capacity > 0 strand the connections buffered at the last leave while everything else (delivery, re-creation) still works. For the pinned tree the same statements are refuted by kernel-checked witness schedules which the harness reproduces on the real code (frps dies).",
         "note": "Trusted: Lean kernel; hand-written model; harness generators. KNOWN findings: C13-tcp-group-port0-listen, C13-group-revived-after-last-leave, C13-http-group-leaked-route.",
     }
